@@ -6,7 +6,7 @@ def obligations(tier):
     T = 'thorough'
     Q = lambda big: 'quick' if not big else T
     obs = [hdrobs.smuggle(3), hdrobs.smuggle(4, tier=T)]
-    obs += [hdrobs.smuggle(5, urih=u, hh=h, tier=('quick' if (u, h) in ((1, 2), (1, 0)) else T)) for u in (0, 1, 2) for h in (0, 1, 2)]
+    obs += [hdrobs.smuggle(5, urih=u, hh=h, tier=('quick' if (u, h) in ((3, 1), (1, 0)) else T)) for u in (0, 1, 2, 3) for h in (0, 1, 2)]
     obs += [hdrobs.smuggle(6, kfs=['C11-folded-cl-not-flagged'], kf_only=True)]
     for o in (0, 1):
         obs.append(hdrobs.smuggle(1, 0, 0, o)); obs.append(hdrobs.smuggle(1, 1, 1, o, tier=T))
